@@ -44,10 +44,11 @@ type scenario struct {
 	DepositsFromEpoch     int
 	ForcedSlashings       bool
 	EjectionHigh          bool // EJECTION_BALANCE just below the maximum: ejections (batched exit queue) become reachable
+	LatePattern           []bool // per epoch (cycled): attestations of that epoch are only included during the next epoch
 }
 
 func (s scenario) String() string {
-	return fmt.Sprintf("%s/%s vals=%d epochs=%d forks=%v step=%v pblock=%.2f part=%v ops=%.2f dep=%.2f leak=%v ejectHigh=%v", s.Family, s.Preset, s.Validators, s.Epochs, s.ForkEpochs, s.StepEvery, s.PBlock, s.Participation, s.POps, s.PDeposits, s.LeakEpochs, s.EjectionHigh)
+	return fmt.Sprintf("%s/%s vals=%d epochs=%d forks=%v step=%v pblock=%.2f part=%v ops=%.2f dep=%.2f leak=%v ejectHigh=%v late=%v", s.Family, s.Preset, s.Validators, s.Epochs, s.ForkEpochs, s.StepEvery, s.PBlock, s.Participation, s.POps, s.PDeposits, s.LeakEpochs, s.EjectionHigh, s.LatePattern)
 }
 
 const ff = ^uint64(0)
@@ -76,6 +77,11 @@ func specFor(sc scenario) *common.Spec {
 	if sc.CustomSlashingsVector {
 		spec.EPOCHS_PER_SLASHINGS_VECTOR = 8
 		spec.MIN_VALIDATOR_WITHDRAWABILITY_DELAY = 2
+	}
+	if sc.Family == "ejectdeneb" {
+		// fine-grained effective balances: one epoch of missed attestations lowers the effective balance below the
+		// (high) ejection balance, so a low-participation epoch ejects many validators at one epoch boundary
+		spec.EFFECTIVE_BALANCE_INCREMENT = 1_000_000
 	}
 	if sc.EjectionHigh {
 		spec.EJECTION_BALANCE = spec.MAX_EFFECTIVE_BALANCE - spec.EFFECTIVE_BALANCE_INCREMENT
@@ -134,6 +140,7 @@ func drawScenario(rng *rand.Rand, family string, quick bool, forceLate ...bool) 
 		sc.ForkEpochs = [4]uint64{1, 2, 3, 3}
 	}
 	sc.StepEvery = rng.IntN(2) == 0
+	forceDeneb := false
 	switch family {
 	case "steady":
 		sc.Epochs = 7 + rng.IntN(4)
@@ -170,6 +177,7 @@ func drawScenario(rng *rand.Rand, family string, quick bool, forceLate ...bool) 
 		sc.ForkEpochs = [4]uint64{1, 1, 2, uint64(3 + rng.IntN(3))}
 		sc.POps = 0.5
 		sc.Blobs = 1 + rng.IntN(6)
+		sc.PDeposits = 0.35 // the eth1 vote of period 0 passes inside the capella epochs: deposits due on the very block that tips it
 		sc.Eth1Creds = 0.7
 		sc.Epochs = 9 + rng.IntN(3)
 	case "ejectall":
@@ -178,13 +186,36 @@ func drawScenario(rng *rand.Rand, family string, quick bool, forceLate ...bool) 
 		sc.ForcedSlashings = true
 		sc.ExtraBalance = false
 		sc.PBlock = 1
-	case "custom":
+	case "custom", "ejectdeneb":
 		sc.Preset = "custom"
 		sc.Validators = 24 + rng.IntN(40)
 		sc.POps = 0.4
 		sc.PDeposits = 0.3
 		sc.Participation = []float64{1, 0.7, 1, 0.5}
 		sc.Epochs = 9 + rng.IntN(4)
+		if family == "ejectdeneb" {
+			// deneb early, churn limit (validators/16) above the activation cap (2), mass ejections
+			sc.EjectionHigh = true
+			sc.Validators = 48 + rng.IntN(16)
+			// validators start at exactly the maximum: those missing in epoch 0 fall below it at the end of epoch 0
+			// and are ejected together at the end of epoch 1, which is a deneb epoch
+			sc.Participation = []float64{0.6, 1, 0.7, 1, 0.6, 0.8}
+			sc.ExtraBalance = false
+			sc.PBlock = 0.95
+			forceDeneb = true
+		}
+	case "lateincl":
+		// late inclusion: whole epochs whose votes only arrive in the following epoch (previous-epoch justification,
+		// all four finalization rules, old previous != old current justified checkpoint)
+		sc.LatePattern = make([]bool, 5+rng.IntN(6))
+		for i := range sc.LatePattern {
+			sc.LatePattern[i] = rng.IntN(2) == 0
+		}
+		k := rng.IntN(len(sc.LatePattern) - 2)
+		sc.LatePattern[k], sc.LatePattern[k+1], sc.LatePattern[k+2] = true, true, false // two late epochs, then a timely one
+		sc.PBlock = 0.97
+		sc.POps = 0.05
+		sc.Epochs = 12 + rng.IntN(6)
 	case "mainnet":
 		sc.Preset = "mainnet"
 		sc.Validators = 128 + rng.IntN(64)
@@ -199,6 +230,10 @@ func drawScenario(rng *rand.Rand, family string, quick bool, forceLate ...bool) 
 	}
 	if len(forceLate) > 0 && forceLate[0] && family != "mainnet" {
 		lateForks = true
+	}
+	if forceDeneb {
+		lateForks = false
+		sc.ForkEpochs = [4]uint64{1, 1, 1, 1}
 	}
 	if lateForks && family != "capella" && !(family == "leak" && sc.Epochs > 40) {
 		period := uint64(8)
@@ -240,6 +275,9 @@ func runChain(b *fw.B, sc scenario, hooks chainHooks, report func(m *sim.Mismatc
 		report(&sim.Mismatch{Kind: "genesis", What: err.Error()}, nil)
 		return false
 	}
+	c.Sp.Observe = func(ev string) {
+		b.Inc("refspec_" + ev) // executions of that branch by the reference (builder runs included)
+	}
 	if m := c.Compare("genesis (state loaded from the reference bytes)"); m != nil {
 		report(m, nil)
 		return false
@@ -270,6 +308,10 @@ func runChain(b *fw.B, sc scenario, hooks chainHooks, report func(m *sim.Mismatc
 			continue
 		}
 		plan := sim.Plan{Participation: part, MaxAttSlotsBack: sc.AttBack, WrongHeadProb: sc.WrongHead, WrongTargetProb: sc.WrongTarget, SyncParticipation: sc.SyncPart, Blobs: 0}
+		if len(sc.LatePattern) > 0 {
+			plan.MaxAttSlotsBack = spe
+			plan.WithholdCurrentEpoch = sc.LatePattern[int(epoch)%len(sc.LatePattern)]
+		}
 		if rng.Float64() < sc.POps {
 			if rng.IntN(4) == 0 {
 				plan.ProposerSlashings = 1
